@@ -92,7 +92,7 @@ pub fn spaces(prop: &str, tier: Tier, seed: u64) -> Vec<Box<dyn Space>> {
 /// Self-checks of reference models and alphabets; a failure is a machinery error (exit 2).
 pub fn self_check(prop: &str) -> Result<(), String> {
     match prop {
-        "C01" | "C02" | "C03" | "C11" | "C12" => c01::self_check(),
+        "C01" | "C02" | "C03" | "C11" | "C12" | "C14" => c01::self_check(),
         "C05" => c05::self_check(),
         "C15" => c15::self_check(),
         "C20" => c20::self_check(),
